@@ -141,7 +141,10 @@ class FakeFile(object):
         raise OSError("simulated file has no descriptor")
 
     def close(self):
+        if self.closed:
+            return
         self.closed = True
+        self.disk.on_close(self.path)
 
     def __enter__(self):
         return self
@@ -211,6 +214,15 @@ class FakeDisk(object):
             raise SimCrash("crash during write %d" % self.writes)
         self.written[path] += data
         self.files[path] = self.written[path]
+
+    def on_close(self, path):
+        f = self.fault
+        if f is not None and f["kind"] == "disk_close_error":
+            # delayed write error reported by close(): the tail never reached the disk
+            self.stats.fault("disk_close_error")
+            total = self.written.get(path, b"")
+            self.files[path] = total[: int(len(total) * f.get("keep", 0.5))]
+            raise OSError(errno.EIO, "simulated: I/O error on close")
 
 
 class CodecsShim(object):
